@@ -40,7 +40,9 @@ func mainLoopWithContext(L *LState, baseframe *callFrame) {
 
 	L.currentFrame = L.stack.Last()
 	if L.currentFrame.Fn.IsG {
-		callGFunction(L, false)
+		if !callGFunction(L, false) {
+			pollContextAfterGFunction(L)
+		}
 		return
 	}
 
@@ -59,6 +61,22 @@ func mainLoopWithContext(L *LState, baseframe *callFrame) {
 		}
 		if jumpTable[int(inst>>26)](L, inst, baseframe) == 1 {
 			return
+		}
+	}
+}
+
+// pollContextAfterGFunction looks at the context where a dispatch loop ends with a Go function
+// instead of an instruction: a Go function entered from Go code (a host call, a library callback
+// such as a sort comparator or the reader of load, the handler of xpcall) or tail-called as the last
+// action of the loop has returned normally. Without it a Go function that swallowed the
+// cancellation (pcall, xpcall, coroutine.resume) or that never runs a Lua instruction could go on,
+// or end the script, unnoticed.
+func pollContextAfterGFunction(L *LState) {
+	if ctx := L.ctx; ctx != nil {
+		select {
+		case <-ctx.Done():
+			L.RaiseError(ctx.Err().Error())
+		default:
 		}
 	}
 }
@@ -676,6 +694,7 @@ func init() {
 					return 1
 				}
 				if L.currentFrame == nil || L.currentFrame.Fn.IsG || luaframe == baseframe {
+					pollContextAfterGFunction(L)
 					return 1
 				}
 			} else {
